@@ -40,6 +40,15 @@ def handleWriter : List String → String
       let r := MdVerif.FileSys.saveMany (force == "1") (d : MdVerif.FileSys.Dir String) ws
       s!"err={if r.2 then 1 else 0} " ++ ",".intercalate (r.1.map (fun e => s!"{e.1}={e.2}"))
     | _, _ => "bad-op"
+  -- fsave <name=id,…|-> <valid> <force> <name=id>: Trajectory.save of an input the saver accepts (valid=1) or rejects before opening anything
+  | ["fsave", entries, valid, force, write] =>
+    let parse := fun (s : String) => if s == "-" then some [] else (s.splitOn ",").mapM (fun kv => match kv.splitOn "=" with
+      | [k, v] => some (k, v) | _ => none)
+    match parse entries, parse write with
+    | some d, some [(p, c)] =>
+      let r := MdVerif.FileSys.save (valid == "1") p (force == "1") (d : MdVerif.FileSys.Dir String) c
+      s!"err={if r.2 then 1 else 0} " ++ ",".intercalate (r.1.map (fun e => s!"{e.1}={e.2}"))
+    | _, _ => "bad-op"
   | ["save", ex, force] =>
     let r := save (⟨if ex == "1" then some 0 else none⟩ : FS Nat) (force == "1") 1
     s!"raised={r.2} content={match r.1.file with | none => "none" | some 0 => "old" | some _ => "new"}"
